@@ -203,6 +203,9 @@ pub struct RunOutcome {
     /// is this run non-trivial by the engine's rule
     pub nontrivial: bool,
     pub violations: Vec<Violation>,
+    /// human-readable event trace of the run (schedule and fault events in execution order),
+    /// bounded; copied into the replay file of a violation
+    pub trace: Vec<String>,
 }
 
 impl RunOutcome {
@@ -213,6 +216,11 @@ impl RunOutcome {
         let e = self.maxima.entry(k.to_string()).or_insert(0.0);
         if x > *e || x.is_nan() {
             *e = x;
+        }
+    }
+    pub fn note(&mut self, line: String) {
+        if self.trace.len() < 400 {
+            self.trace.push(line);
         }
     }
     pub fn violate(&mut self, class: &str, signature: &str, detail: String) {
@@ -380,6 +388,9 @@ pub struct ReplayFile {
     pub minimised: bool,
     pub shrink_steps: u64,
     pub scenario: Value,
+    /// event trace of the (minimised) failing run: realised schedule and fault events
+    #[serde(default)]
+    pub trace: Vec<String>,
 }
 
 pub fn replay<E: Engine>(engine: Arc<E>, path: &str) -> i32 {
@@ -574,7 +585,7 @@ pub fn run_engine<E: Engine>(engine: Arc<E>, opts: &Options) -> i32 {
         let entropy = mix(seed ^ 0xE17);
         let sc: E::Scenario =
             serde_json::from_str(&scv.to_string()).expect("scenario roundtrip");
-        let (min_sc, min_v, steps_taken) = minimise(&engine, sc, v, entropy, &known);
+        let (min_sc, min_v, steps_taken, trace) = minimise(&engine, sc, v, entropy, &known);
         let dir = verif_dir().join("replays");
         let _ = std::fs::create_dir_all(&dir);
         let path = dir.join(format!(
@@ -594,6 +605,7 @@ pub fn run_engine<E: Engine>(engine: Arc<E>, opts: &Options) -> i32 {
             minimised: steps_taken > 0,
             shrink_steps: steps_taken,
             scenario: serde_json::to_value(&min_sc).unwrap(),
+            trace,
         };
         if let Err(e) = std::fs::write(&path, serde_json::to_string_pretty(&rf).unwrap()) {
             eprintln!("harness error: cannot write replay {}: {e}", path.display());
@@ -687,9 +699,10 @@ fn minimise<E: Engine>(
     mut v: Violation,
     entropy: u64,
     known: &[KnownFinding],
-) -> (E::Scenario, Violation, u64) {
+) -> (E::Scenario, Violation, u64, Vec<String>) {
     let t0 = Instant::now();
     let mut steps = 0u64;
+    let mut trace = execute_isolated(engine, &roundtrip(&sc).0, entropy).trace;
     'outer: loop {
         if t0.elapsed().as_secs_f64() > 120.0 {
             break;
@@ -704,6 +717,7 @@ fn minimise<E: Engine>(
             {
                 sc = cand;
                 v = v2.clone();
+                trace = o.trace.clone();
                 steps += 1;
                 continue 'outer;
             }
@@ -713,7 +727,7 @@ fn minimise<E: Engine>(
         }
         break;
     }
-    (sc, v, steps)
+    (sc, v, steps, trace)
 }
 
 // ------------------------------------------------------------------ numeric helpers
